@@ -7,7 +7,7 @@
 (* evaluated non-halting: each failure adds a record to viol, so one run   *)
 (* reports every violation of every property in every concatenated trace.  *)
 (***************************************************************************)
-EXTENDS ResObserver, Json, SequencesExt
+EXTENDS ResObserver, CacheTrace, Json, SequencesExt
 
 Trace == ndJsonDeserialize("trace.ndjson")
 
@@ -27,7 +27,9 @@ NewClient(lg, v111, http) ==
 InitO(tr) ==
     [tr |-> tr, conns |-> <<>>, ann |-> <<>>, norm |-> <<>>, keyn |-> <<>>,
      mqsubs |-> {}, mqpend |-> <<>>, handed |-> <<>>, window |-> {},
-     refetch |-> <<>>, ctrig |-> <<>>, resets |-> <<>>, thr |-> <<>>, stop |-> [l |-> 0, cause |-> "", open |-> {}], down |-> FALSE, hadStop |-> FALSE, final |-> FALSE, resetObl |-> {}, keyq |-> <<>>, qev |-> <<>>]
+     refetch |-> <<>>, ctrig |-> <<>>, resets |-> <<>>, thr |-> <<>>, stop |-> [l |-> 0, cause |-> "", open |-> {}], down |-> FALSE, hadStop |-> FALSE, final |-> FALSE, resetObl |-> {}, keyq |-> <<>>, qev |-> <<>>, ce |-> <<>>]
+
+Short(s) == IF Len(s) > 48 THEN SubSeq(s, 1, 24) \o "...(" \o ToString(Len(s)) \o " characters)" ELSE s
 
 V(p, why, kf) == [p |-> p, tr |-> o.tr, l |-> l, why |-> why, kf |-> kf]
 
@@ -382,6 +384,10 @@ H_note(r) ==
             IN Res([o EXCEPT !.thr = Put(o.thr, r.thr, [limit |-> r.limit, running |-> r.running, qlen |-> r.qlen])], vs)
       [] r.kind = "resetres" ->
             Res([o EXCEPT !.refetch = Put(o.refetch, r.key, Get(o.refetch, r.key, 0) + 1)], {})
+      [] r.kind \in CENotes /\ ~o.hadStop /\ o.stop.l = 0 ->
+            \* C09: the cache entry follows CacheEntry.tla in every critical section
+            LET st == CEStep(Get(o.ce, r.n, CENew), r)
+            IN Res([o EXCEPT !.ce = Put(@, r.n, st.x)], {V("C09", "cache entry " \o Short(r.n) \o ": " \o m, "") : m \in st.errs})
       [] OTHER -> Res(o, {})
 
 -----------------------------------------------------------------------------
@@ -624,7 +630,7 @@ C19QViol ==
 
 C09QViol(q) ==
     UNION { IF q.cache[n].count = q.cache[n].subs THEN {}
-            ELSE {V("C09", "cache entry " \o n \o " has use count " \o ToString(q.cache[n].count) \o " with " \o ToString(q.cache[n].subs) \o " subscribers and nothing in flight", "")}
+            ELSE {V("C09", "cache entry " \o Short(n) \o " has use count " \o ToString(q.cache[n].count) \o " with " \o ToString(q.cache[n].subs) \o " subscribers and nothing in flight", "")}
             : n \in DOMAIN q.cache }
     \cup UNION { IF q.cache[n].locked THEN {V("C13", "resource queue of " \o n \o " still locked at quiescence", "")} ELSE {} : n \in DOMAIN q.cache }
     \cup (IF ~o.hadStop /\ (q.gsubs < 0 \/ q.gres < 0) THEN {V("C09", "negative cache gauge " \o ToString(<<q.gres, q.gsubs>>), "")} ELSE {})
@@ -646,6 +652,7 @@ H_quiescent(r) ==
     IN Res([o1 EXCEPT !.resetObl = {}, !.qev = <<>>],
            UNION {C01Viol(c, r) \cup C07Viol(c) \cup C08Viol(c, r) \cup C03EndViol(c) \cup C06EndViol(c, r) \cup C06TokViol(c, r) : c \in live}
            \cup C09QViol(r) \cup C11Viol(r) \cup C19QViol
+           \cup (IF o.hadStop THEN {} ELSE UNION {{V("C09", "cache entry " \o Short(n) \o ": " \o m, "") : m \in CEQuiescent(o.ce[n])} : n \in DOMAIN o.ce})
            \cup UNION {{V("C13", "no query request for cached query " \o k \o " on query event " \o sj, "")
                         : k \in {x \in o.qev[sj].must \ o.qev[sj].got : QSubscribed(x) /\ AnnOf(o.ann, x).st = "ld"}} : sj \in DOMAIN o.qev}
            \cup {V("C12", "cached resource " \o x.key \o " matched a system reset but was never re-fetched", "") : x \in o.resetObl})
